@@ -6,7 +6,7 @@ Option values are restricted to the Python types the package itself produces: in
 namespace Droop
 
 inductive OV | i (n : Int) | s (v : String) | b (v : Bool) | none
-deriving Repr, BEq, Inhabited
+deriving Repr, BEq, Inhabited, DecidableEq
 
 /-- Python `==` between option values (`True == 1`, `False == 0`) -/
 def OV.pyEq : OV → OV → Bool
